@@ -556,22 +556,33 @@ def build(repo):
             // the client's latest Block2 preference is remembered (or forgotten when the request carries none)
             final(state).last_request_block2 == first_block(opts_view(old(request).message.options), 23),
             final(state).cached_request_payload == old(state).cached_request_payload,
-            ({
+            // whatever the case (C11, C12): the request itself is left alone, errors can be rendered, the reply stays the one
+            // prepared for THIS request (message id, token)
+            final(request).message == old(request).message, final(request).source == old(request).source,
+            (final(request).response is Some) == (old(request).response is Some),
+            r is Err ==> (r->Err_0.code is Some || old(request).response is None),
+            old(request).response is Some ==> ({
+                let m0 = old(request).response->0.message; let m1 = final(request).response->0.message;
+                m1.header.message_id == m0.header.message_id && m1.token@ == m0.token@ && tkl_of(m1.header.ver_type_tkl) == tkl_of(m0.header.ver_type_tkl) }),
+            // C08: a follow-up block (number above 0) of a cached reply is served from the cache, the application is not
+            // consulted (Ok(true)); the cache entry is released exactly when the final block has been served.  (What a request
+            // for block 0 does while an unfinished reply is cached is outside C08: serving it again and starting afresh are both fine.)
+            ({ // @clause follow-up-served-from-cache @props C08
                 let b = first_block(opts_view(old(request).message.options), 23);
-                if b is Some && old(state).cached_response is Some {
-                    // follow-up block: served from the cache, the application is not consulted (Ok(true));
-                    // the cache entry is released exactly when the final block has been served (C08)
+                b is Some && old(state).cached_response is Some && b->0.num > 0 ==> {
                     &&& served(*old(request), *final(request), b->0, old(state).cached_response->0, if r is Ok { Ok(!(final(state).cached_response is None)) } else { Err(r->Err_0) })
                     &&& (r is Ok ==> r->Ok_0)
                     &&& (r is Err ==> final(state).cached_response == old(state).cached_response)
                     &&& (r is Ok ==> (final(state).cached_response is None || final(state).cached_response == old(state).cached_response))
-                } else {
-                    // nothing cached or no Block2 option: the request goes to the application untouched
+                } }),
+            // C08: nothing cached or no Block2 option: the request goes to the application untouched
+            ({ // @clause start-goes-to-application @props C08
+                let b = first_block(opts_view(old(request).message.options), 23);
+                b is None || old(state).cached_response is None ==> {
                     &&& r is Ok && !r->Ok_0
                     &&& *final(request) == *old(request)
-                    &&& final(state).cached_response == old(state).cached_response
-                }
-            })''', props=['C08', 'C11', 'C12'])
+                    &&& (final(state).cached_response == old(state).cached_response || final(state).cached_response is None)
+                } })''', props=['C08', 'C11', 'C12'])
     u.contract(B1, '''        requires st_wf(*old(state)), old(request).message.payload@.len() <= usize::MAX / 8
         ensures
             st_wf(*final(state)),
